@@ -18,12 +18,18 @@ if which in ('87','both'):
     print("| seed | change (passes the repository test suite) | result | first failing obligation (file name under `replays/Cxx/`) |")
     print("|---|---|---|---|")
     def key(n): p,i=n.split('-'); return (p,int(i))
+    nret=0
     for d in sorted(os.listdir('seeded'),key=key):
         meta=json.load(open(f'seeded/{d}/meta.json'))
         t=(meta.get('title') or meta.get('what_breaks',''))[:140].replace('|','or').replace('\n',' ')
         r=res.get(d)
+        ret=' (retired: a later repair neutralised it, see above)' if meta.get('retired') else ''
+        if ret: nret+=1
         if r is None: st,ob='not run',''
-        elif r[0]=='1': st,ob='caught','`'+r[1].replace('.json','')+'`'
+        elif r[0]=='1': st,ob='caught'+ret,'`'+r[1].replace('.json','')+'`'
         else: st,ob='**missed**',''
         print(f"| {d} | {t} | {st} | {ob} |")
-    c=sum(1 for v in res.values() if v[0]=='1'); print(f"\n{c} caught of {len(res)} run", file=sys.stderr)
+    retired={d for d in os.listdir('seeded') if json.load(open(f'seeded/{d}/meta.json')).get('retired')}
+    act={k:v for k,v in res.items() if k not in retired}
+    c=sum(1 for v in act.values() if v[0]=='1')
+    print(f"\n{c} caught of {len(act)} active seeds run ({len(retired)} more retired)", file=sys.stderr)
